@@ -261,7 +261,7 @@ def run_scene(rows, prms, index=None, stages=('slices', 'groups', 'layers'), fra
                 # works with the values it was constructed with
                 from ampycloud import dynamic
                 saved_global = dynamic.AMPYCLOUD_PRMS
-                g = copy.deepcopy(dynamic.get_default_prms())
+                g = common.packaged_defaults()
                 _nested_update(g, copy.deepcopy(prms))
                 dynamic.AMPYCLOUD_PRMS = g
                 try:
